@@ -81,9 +81,20 @@ def parse_call_args(message: str):
             return head, None, None
     if not isinstance(node, ast.Call):
         return head, None, None
+    env = {}
+
+    def ev(n):
+        # CrossHair prints aliased arguments as `v1:=b''` ... `v1`
+        if isinstance(n, ast.NamedExpr):
+            env[n.target.id] = ev(n.value)
+            return env[n.target.id]
+        if isinstance(n, ast.Name) and n.id in env:
+            return env[n.id]
+        return ast.literal_eval(n)
+
     try:
-        args = [ast.literal_eval(a) for a in node.args]
-        kwargs = {k.arg: ast.literal_eval(k.value) for k in node.keywords}
+        args = [ev(a) for a in node.args]
+        kwargs = {k.arg: ev(k.value) for k in node.keywords}
     except Exception:
         return head, None, None
     return head, args, kwargs
